@@ -30,6 +30,12 @@ func propC04(c *Ctx, r *Report) {
 	r.NotDec = "per-block numeric equality of supply deltas with the events' amounts (runtime values)"
 	r.Trusted = []string{"go/ssa", "module call graph", "SQL catalogue"}
 	cat := buildSQLCat(c)
+	// exactly its own amounts: a recorded request must not alias the loop variable it was read from (go 1.13
+	// semantics: one variable per loop), shared with C11/C16
+	r.rule("C04-R12/loopvar-alias", 1, "no address of a per-loop variable is retained across iterations in block processing")
+	ruleLoopVarAlias(c, r, "C04-R12/loopvar-alias", c.RSync)
+	r.rule("C04-R13/payout-entry-per-request", 1, "every deferred PEG request has an entry in the payout map (its refund is computed from it)")
+	rulePayoutEntryPerRequest(c, r, "C04-R13/payout-entry-per-request")
 
 	r.rule("C04-R1/balance-writers", 2, "only the two mutators write pn_addresses")
 	ruleTableWriters(c, cat, r, "C04-R1/balance-writers", "pn_addresses", []writerSpec{
